@@ -31,6 +31,7 @@ ENTRY = dict(
         "raw encoding of a requested value": "C17's conversion model (exact binary64), correspondence-validated",
         "a refused / no-op second set while a call is in flight is inert": "theorem (`rejected_set_inert_while_pending`) + correspondence; an ACCEPTED overlapping call is outside this machine (C08)",
         "model = implementation": "correspondence (every table row x triples x boundary requests; histories with reports between attempts, refused overlapping calls)",
+        "the bounds in force are those reported for THAT sub-device": "correspondence (devices populated by ONE response for 2..5 mixers / 2..3 thermostats with disjoint ranges per sub-device; on every sub-device its own bounds +-1 and every other sub-device's bounds are requested, through every public set route, and judged by C06.spec against the triple reported for that sub-device; in half of the configurations a client callback subscribed to the first parameter of every sub-device raises while the controller re-reports other bounds)",
     },
     assumptions=COMMON_ASSUME + [
         "requested values are finite (no NaN/inf) and 'on'/'off' are the only strings",
